@@ -146,6 +146,197 @@ pub fn print_funcs(cfg: &Cfg) -> Vec<Op> {
     v
 }
 
+// ---------------------------------------------------------------------------
+// Realistic screens (80x24 and larger): layered alphabet - level 0 places the cursor
+// (region x origin mode x picked cells, wrap-pending), level 1 runs every function of
+// the property with EVERY parameter value 0..=max(cols, rows)+2 and the values around
+// the powers of two and type boundaries beyond. Depth 2, so each function is judged from
+// every placement, on a screen whose rows and columns exceed 8 bits of nothing but do
+// cross 16, 32, 64 (and 128 in the thorough tier).
+
+fn wide_values(n: usize) -> Vec<P> {
+    let mut v: Vec<u32> = (0..=n as u32 + 2).collect();
+    v.extend([99, 100, 101, 127, 128, 129, 254, 255, 256, 257, 300, 511, 512, 513, 999, 1000, 1023, 1024, 1025, 4095, 4096, 9999, 10000, 32767, 32768, 65534, 65535]);
+    v.sort();
+    v.dedup();
+    let mut r: Vec<P> = vec![None];
+    r.extend(v.into_iter().map(Some));
+    r
+}
+/// parameter values for a count of rows / of columns
+pub fn wide_row_params(cfg: &Cfg) -> Vec<P> {
+    wide_values(cfg.rows)
+}
+pub fn wide_col_params(cfg: &Cfg) -> Vec<P> {
+    wide_values(cfg.cols)
+}
+
+fn few(n: usize) -> Vec<u32> {
+    let mut v: Vec<u32> = vec![1, 2, (n as u32 + 1) / 2, n as u32 - 1, n as u32];
+    v.retain(|&x| x >= 1 && x <= n as u32);
+    v.sort();
+    v.dedup();
+    v
+}
+
+/// region x origin mode x (first row, both margins, a row inside, last row) x (first, middle,
+/// last column), plus wrap-pending on those rows
+pub fn wide_placements(cfg: &Cfg) -> Vec<Op> {
+    let (cols, rows) = (cfg.cols as u32, cfg.rows as u32);
+    let mut v = vec![];
+    let mut regions: Vec<(u32, u32)> = vec![(1, rows), (5, rows.saturating_sub(4)), (1, rows / 2 + 1), (rows / 2, rows)];
+    regions.retain(|&(a, b)| a >= 1 && a < b && b <= rows);
+    regions.dedup();
+    for (a, b) in regions {
+        let mut rs = vec![1, a, (a + b) / 2, b, rows];
+        rs.sort();
+        rs.dedup();
+        for origin in [false, true] {
+            for &r in &rs {
+                for cc in [1, cols / 2, cols] {
+                    let mode = if origin { DecSet(vec![6]) } else { DecRst(vec![6]) };
+                    // with origin mode on, rows are addressed relative to the region
+                    let rr = if origin { if r < a || r > b { continue } else { r - a + 1 } } else { r };
+                    v.push(c(Seq(vec![Decstbm(Some(a), Some(b)), mode, Cup(Some(rr), Some(cc))])));
+                }
+                if !origin {
+                    v.push(c(Seq(vec![Decstbm(Some(a), Some(b)), DecRst(vec![6]), Cup(Some(r), Some(cols)), Text("z".into())])));
+                }
+            }
+        }
+    }
+    v
+}
+
+pub fn wide_move_funcs(cfg: &Cfg) -> Vec<Op> {
+    let mut v = vec![c(Bs), c(Cr), c(Lf), c(Ri), c(Nel), c(Ht)];
+    for p in wide_row_params(cfg) {
+        for cmd in [Cuu(p), Cud(p), Cnl(p), Cpl(p), Vpa(p), Vpr(p)] {
+            v.push(c(cmd));
+        }
+    }
+    for p in wide_col_params(cfg) {
+        for cmd in [Cuf(p), Cub(p), Cha(p), Cht(p), Cbt(p)] {
+            v.push(c(cmd));
+        }
+    }
+    let (rows, cols) = (cfg.rows as u32, cfg.cols as u32);
+    let mut cells: Vec<(u32, u32)> = vec![];
+    for r in 0..=rows + 1 {
+        for &cc in &few(cfg.cols) {
+            cells.push((r, cc));
+        }
+    }
+    for cc in 0..=cols + 1 {
+        for &r in &few(cfg.rows) {
+            cells.push((r, cc));
+        }
+    }
+    for x in [255u32, 256, 257, 65535] {
+        cells.push((x, 2));
+        cells.push((2, x));
+    }
+    cells.sort();
+    cells.dedup();
+    for (r, cc) in cells {
+        v.push(c(Cup(Some(r), Some(cc))));
+    }
+    v
+}
+
+pub fn wide_scroll_funcs(cfg: &Cfg) -> Vec<Op> {
+    let mut v = vec![c(Lf), c(Ri), c(Nel), calt(Lf, 3), Op::text(&"w".repeat(cfg.cols + 1))];
+    for p in wide_row_params(cfg) {
+        for cmd in [Su(p), Sd(p), Il(p), Dl(p)] {
+            v.push(c(cmd));
+        }
+    }
+    let rows = cfg.rows as u32;
+    let mut pairs: Vec<(u32, u32)> = vec![];
+    for a in 0..=rows + 1 {
+        for b in [0, 1, 2, rows / 2, rows - 1, rows, rows + 1] {
+            pairs.push((a, b));
+            pairs.push((b, a));
+        }
+        pairs.push((a, a));
+        pairs.push((a, a + 1));
+    }
+    for x in [255u32, 256, 257, 65535] {
+        pairs.push((2, x));
+        pairs.push((x, rows));
+    }
+    pairs.sort();
+    pairs.dedup();
+    for (a, b) in pairs {
+        v.push(c(Decstbm(Some(a), Some(b))));
+    }
+    v
+}
+
+pub fn wide_edit_funcs(cfg: &Cfg) -> Vec<Op> {
+    let mut v = vec![c(Decaln)];
+    for p in wide_col_params(cfg) {
+        for cmd in [Ich(p), Dch(p), Ech(p)] {
+            v.push(c(cmd));
+        }
+    }
+    for p in [None, Some(0), Some(1), Some(2), Some(3), Some(4)] {
+        v.push(c(El(p)));
+        v.push(c(Ed(p)));
+    }
+    v
+}
+
+pub fn wide_print_funcs(cfg: &Cfg) -> Vec<Op> {
+    let mut v = vec![t("x"), t("é"), t("漢"), t("q\u{301}")];
+    for p in wide_values(cfg.cols * 2) {
+        v.push(c(Rep(p)));
+    }
+    for len in 2..=cfg.cols * 2 + 1 {
+        let s: String = (0..len).map(|i| char::from_u32('a' as u32 + (i % 26) as u32).unwrap()).collect();
+        v.push(Op::text(&s));
+    }
+    // the same after a mode / charset switch in the same call
+    for pre in [Sm(vec![4]), DecRst(vec![7]), Desig(0, true), sgr1(44)] {
+        for len in [1usize, 2, cfg.cols - 1, cfg.cols, cfg.cols + 1] {
+            let s: String = (0..len).map(|i| char::from_u32('a' as u32 + (i % 26) as u32).unwrap()).collect();
+            v.push(c(Seq(vec![pre.clone(), Text(s)])));
+        }
+    }
+    v
+}
+
+/// placements at level 0 only, functions at level 1 only
+pub fn layered(placements: Vec<Op>, funcs: Vec<Op>) -> Vec<Op> {
+    let mut v: Vec<Op> = placements.into_iter().map(|o| o.at(1)).collect();
+    v.extend(funcs.into_iter().map(|o| o.at(2)));
+    v
+}
+
+pub fn wide_cfgs(tier: Tier) -> Vec<Cfg> {
+    match tier {
+        Tier::Quick => cfgs(&[(80, 24)], &[None]),
+        Tier::Thorough => cfgs(&[(80, 24), (132, 43), (65, 33), (257, 20), (40, 130)], &[None]),
+    }
+}
+
+pub fn wide_part<'a>(name: &'static str, sys: &'a LockStep, alphabet: &'a (dyn Fn(&Cfg) -> Vec<Op> + Sync), tier: Tier) -> Part<'a, LockStep> {
+    wide_part_on(name, sys, alphabet, wide_cfgs(tier), tier)
+}
+
+pub fn wide_part_on<'a>(name: &'static str, sys: &'a LockStep, alphabet: &'a (dyn Fn(&Cfg) -> Vec<Op> + Sync), cfgs: Vec<Cfg>, tier: Tier) -> Part<'a, LockStep> {
+    Part {
+        name,
+        sys,
+        cfgs,
+        alphabet,
+        depth: 2,
+        seconds: tier.pick(20.0, 1800.0),
+        validated: true,
+        nontrivial: Some("lockstep_transitions"),
+    }
+}
+
 pub fn sweep_cfgs(tier: Tier) -> Vec<Cfg> {
     match tier {
         Tier::Quick => cfgs(&[(12, 8)], &[None]),
@@ -258,9 +449,23 @@ pub fn mode_number_sweep(ctx: &Ctx, rep: &mut Report, sys: &LockStep) {
                     }
                     let cmd = if set { DecSet(vec![n]) } else { DecRst(vec![n]) };
                     match lock_apply(&mut st, &Op::new(cmd)) {
-                        Outcome::Mismatch(c2, w) if sys.blame(&c2, &w) => Some(format!("after {:?}: {}", c2, w)),
-                        _ => None,
+                        Outcome::Mismatch(c2, w) if sys.blame(&c2, &w) => return Some(format!("after {:?}: {}", c2, w)),
+                        Outcome::Ok => {}
+                        _ => return None,
                     }
+                    // what follows must be executed as ever: a mode number that the terminal
+                    // does not implement must not change the meaning of later sequences
+                    // (one representative of every function class, both save / restore pairs)
+                    if std::ptr::eq(seed, &seed_a) {
+                        for cmd in continuation_script() {
+                            match lock_apply(&mut st, &Op::new(cmd)) {
+                                Outcome::Ok => {}
+                                Outcome::Mismatch(c2, w) if sys.blame(&c2, &w) => return Some(format!("later {:?}: {}", c2, w)),
+                                _ => return None,
+                            }
+                        }
+                    }
+                    None
                 });
                 match r {
                     Ok(None) => {}
@@ -283,6 +488,58 @@ pub fn mode_number_sweep(ctx: &Ctx, rep: &mut Report, sys: &LockStep) {
     if bad.len() > 3 {
         rep.violations += bad.len() as u64 - 3;
     }
+}
+
+/// One representative of every function class (moves, tabs, prints incl. an auto-wrap, REP,
+/// edits, scrolls, region, both save / restore pairs, SGR, charsets) - run in lock-step after
+/// an input that must not change how later input is understood.
+pub fn continuation_script() -> Vec<Cmd> {
+    vec![
+        Cup(Some(2), Some(3)),
+        sgr1(1),
+        Scosc,
+        Cup(Some(1), Some(1)),
+        sgr1(0),
+        Scorc,
+        Text("k".into()),
+        Decsc,
+        Cup(Some(3), Some(2)),
+        sgr1(45),
+        Decrc,
+        Text("l".into()),
+        Cuf(Some(1)),
+        Cub(Some(2)),
+        Cuu(Some(1)),
+        Cud(Some(1)),
+        Lf,
+        Ri,
+        Nel,
+        Ht,
+        Cbt(Some(1)),
+        Bs,
+        Ich(Some(1)),
+        Dch(Some(1)),
+        Ech(Some(1)),
+        Rep(Some(2)),
+        Il(Some(1)),
+        Dl(Some(1)),
+        Su(Some(1)),
+        Sd(Some(1)),
+        El(Some(1)),
+        Decstbm(Some(1), Some(3)),
+        Cup(Some(3), Some(4)),
+        Text("wxyzv".into()),
+        Desig(0, true),
+        Text("q".into()),
+        Desig(0, false),
+        Cha(Some(2)),
+        Vpa(Some(2)),
+        Hts,
+        Tbc(Some(3)),
+        Ed(Some(1)),
+        Cr,
+        Decaln,
+    ]
 }
 
 /// replay helper: re-run the sweep, true if it still finds a violation
